@@ -56,6 +56,7 @@ func (c *ctxt) o2oState(tag string, acc ident, q payload, info *aclrecordproto.A
 	myKey := nk(acc.pub)
 	addM(acc.pub)
 	readKeyOf := map[string]int{} // raw read key -> joint key symbol
+	metaOf := map[int]string{}    // joint key symbol -> raw metadata key derived with the same partner
 	seenK := map[int]bool{}
 	decode := func(b []byte, isWriter bool) {
 		if seenK[nb(b)] && !isWriter {
@@ -91,6 +92,11 @@ func (c *ctxt) o2oState(tag string, acc ident, q payload, info *aclrecordproto.A
 				if rr, err := rk.Raw(); err == nil {
 					readKeyOf[string(rr)] = j
 				}
+			}
+		}
+		if msk, err := crypto.GenerateSharedKey(acc.priv, pk, crypto.AnysyncMetadataOneToOnePath); err == nil {
+			if mr, err := msk.Raw(); err == nil {
+				metaOf[j] = string(mr)
 			}
 		}
 	}
@@ -149,6 +155,17 @@ func (c *ctxt) o2oState(tag string, acc ident, q payload, info *aclrecordproto.A
 			if rr, err := k.ReadKey.Raw(); err == nil {
 				if j, ok := readKeyOf[string(rr)]; ok {
 					keys = strconv.Itoa(j)
+					// the metadata key must be the one derived with the same partner (metadata path),
+					// and the stored public half must belong to it
+					okMeta := false
+					if k.MetadataPrivKey != nil && k.MetadataPubKey != nil {
+						if mr, err := k.MetadataPrivKey.Raw(); err == nil && string(mr) == metaOf[j] && k.MetadataPubKey.Equals(k.MetadataPrivKey.GetPublic()) {
+							okMeta = true
+						}
+					}
+					if !okMeta {
+						keys += "!meta"
+					}
 				}
 				// direct oracle: the read key must not be derivable from what the root publishes (owner
 				// and writer keys, marshalled or raw) — otherwise every holder of the root derives it
